@@ -104,10 +104,27 @@ def handleLoop (case : Nat) (j : Json) : IO Unit := do
     (if recovered then "" else "endpoint-not-probed-again-by-the-background-loop")
     (if recovered && startedDown then "" else s!"endpoint status at start '{jstr (jget impl "status_at_start")}', after {jint (jget impl "waited_ms")} ms (bound {jint (jget impl "bound_ms")} ms) '{jstr (jget impl "status")}', {jint (jget impl "probes")} probe(s) reached the backend since it accepts connections")
 
+/-- kind "crowd": more endpoints due in one round than check slots, the slot holders hang and the round's deadline
+    passes with endpoints still queueing.  Afterwards every backend answers: each endpoint is made due and three rounds
+    run — by `due_probed` every one of them is probed (and, answering 200, is healthy). -/
+def handleCrowd (case : Nat) (j : Json) : IO Unit := do
+  let impl := jget j "impl"
+  if jstr (jget impl "setup_err") != "" then
+    emit case false true "setup-error" "" (jstr (jget impl "setup_err")); return
+  let probed := (jarr (jget impl "probed_later")).map jbool
+  let healthy := (jarr (jget impl "healthy")).map jbool
+  let n := jnat (jget j "n")
+  let ok := probed.length == n && probed.all id && healthy.all id
+  let missing := (List.range n).filter (fun i => !(probed.getD i false))
+  emit case ok ok (s!"crowd.{if jbool (jget j "forced") then "forced" else "scheduled"}") (if ok then "" else "due-endpoint-never-probed-after-a-round-ran-out-of-time")
+    (if ok then "" else s!"{n} endpoints, {jnat (jget j "slow")} of them hanging during a round whose deadline passed; afterwards all backends answer 200 and every endpoint is due, three rounds later endpoints {missing} have not been probed (healthy: {healthy})")
+
 def handle (vh vb : Variant) (j : Json) : IO Unit := do
   let case := jnat (jget j "case")
   if jstr (jget j "kind") == "loop" then
     handleLoop case j; return
+  if jstr (jget j "kind") == "crowd" then
+    handleCrowd case j; return
   let interval := jint (jget j "interval")
   let ideal := jbool (jget j "ideal")
   let rawOps := (jarr (jget j "ops")).map (fun o => (jint ((jarr o).getD 0 Json.null), jint ((jarr o).getD 1 Json.null)))
